@@ -22,10 +22,11 @@ LEVEL_NOTE = ("Trusted: Coq kernel, extraction, the Go harness and generators, t
               "are modelled by hand (tied by the differential run). strconv float text and go-cid string forms are "
               "Section hypotheses (A1, A2, CID round trip), sampled against the real code in every run.")
 TRUSTED = [
-    "A1 (Section hypothesis, sampled every run): strconv.ParseFloat(emitFloat(f)) = f for every finite float64 f",
-    "A2 (Section hypothesis, sampled every run): emitFloat(f) matches the JSON number grammar (refmt numscan automaton), "
-    "contains '.' or 'e' iff not (f integral and |f| < 1e21), and has at most 19 digits before the '.'/'e' in that case",
-    "CID law (Section hypothesis, exercised on go-cid every run): cid.Decode(c.String()) = c for every defined CID",
+    "A1 (hypothesis of the theorems, sampled every run): strconv.ParseFloat(emitFloat(f)) = f for every finite float64 f",
+    "A2 (hypothesis, sampled every run through the extracted predicate float_text_ok): emitFloat(f) matches the JSON number "
+    "grammar (refmt numscan automaton), contains '.' or 'e' iff not (f integral and |f| < 1e21), and has at most 19 digits "
+    "before the '.'/'e' in that case",
+    "CID law (hypothesis of the theorems, exercised on go-cid every run): cid.Decode(c.String()) = c for every defined CID",
     "refmt v0.90 JSON encoder/decoder, encoding/base64, unicode/utf8, unicode/utf16: hand-modelled in coq/Codec/{DagJson,Base64,Utf8}.v; tied by correspondence only",
     "Go sort.Slice sorts correctly w.r.t. the comparator (the model uses insertion sort; uniqueness of the sorted permutation is proved)",
     "basicnode map assembler refuses a repeated key (modelled as the `seen` check in unm_map)",
@@ -49,3 +50,13 @@ def classify(fs):
 
 def input_key(fs):
     return "\t".join(fs[1:5])
+
+
+def nontrivial(fs):
+    return len(fs[4] if fs[1] == "enc" else fs[3]) > 8
+
+
+EXPLANATION = ("enc records: model bytes and model decode of them must equal dagjson.Encode / Decode; the oracle checks round trip "
+               "with kinds, order independence across the insertion orders of one value, canonical text, and samples A1/A2/CID. "
+               "dec records: accept/reject class and value of dagjson.DecodeOptions.Decode on hand-made, mutated and soup inputs "
+               "must equal the model decoder.")
